@@ -39,7 +39,28 @@ def run(ctx):
     for rd in range(rounds):
         path = os.path.join(ctx.work, "rd_%d.ndjson" % rd)
         r = vlib.run_harness(ctx, binary, "retry_delay_traces", args=dict(n=n // rounds, out=path), env_extra={"VH_SEED": str(ctx.seed * 100 + rd)})
-        recs, summ = vlib.harness_summary(ctx, r, "retry_delay_traces")
+        try:
+            recs, summ = vlib.harness_summary(ctx, r, "retry_delay_traces")
+        except vlib.Inconclusive:
+            # the harness process died (not a Go panic it could recover): what the first execution of each configuration
+            # scheduled up to then was written out unbuffered - if THAT already leaves the envelope it is a verdict
+            live = path + ".live"
+            if os.path.exists(live):
+                good = [l for l in open(live).read().split("\n") if l.startswith("{") and l.endswith("}")]
+                open(live, "w").write("\n".join(good) + "\n")
+                ok, info = tracecheck.validate(ctx, "rdlive%d" % rd, "RetryDelayTrace", live)
+                if not ok:
+                    reached = info.get("reached") or 1
+                    lines = tracecheck.read_lines(live, 1, reached)
+                    start = max(i for i, l in enumerate(lines) if l["ev"] == "Config")
+                    bad = lines[start:]
+                    vlib.add_violation(ctx, "retrydelay:%s:Sched:then-the-process-died" % bad[0]["cfg"]["kind"],
+                                       "event %s is not allowed by the envelope after %s (the harness process died afterwards)" % (json.dumps(bad[-1]), json.dumps(bad[:-1])[:600]),
+                                       dict(trace=bad, rejected_line=reached))
+                    continue
+            raise
+        for p in [x for x in recs if x.get("k") == "problem"]:
+            vlib.add_violation(ctx, "retrydelay:problem:%s" % p["cfg"]["kind"], "%s with configuration %s, %d retries" % (p["what"], json.dumps(p["cfg"]), p["maxRetries"]), dict(config=p["cfg"]))
         ctx.traces += summ["n"]
         ctx.nontrivial += summ["nontrivial"]
         ctx.evaluations += summ["events"]
